@@ -190,6 +190,19 @@ func C08() int {
 			}
 		}
 	}
+	// ---- writer: the output is a regular file (the program can seek in it and cut it back): what the FILE holds
+	// after the failure is judged like the accepted bytes - a prefix, whole lines after an outright failure
+	for i, in := range ins {
+		if nwrites[i] < 2 || i > 8 {
+			continue
+		}
+		for _, k := range []int{2, (nwrites[i] + 2) / 2, nwrites[i]} {
+			for _, sh := range []int{0, 1, 40} {
+				faults = append(faults, fault{i, sut.AgentCmd{"op": "stream", "input_b64": b64(in.data), "fail_write_at": k, "short_write": sh, "file_sink": true}, "write",
+					fmt.Sprintf("write #%d to a regular file fails after accepting ≤%d bytes", k, sh), sh != 0, false, 0})
+			}
+		}
+	}
 	// ---- reader: k-th Read fails under chunkings; every byte offset on small inputs
 	for i, in := range ins {
 		if len(in.data) > 40000 && !in.overLong {
